@@ -457,8 +457,13 @@ def emitGroup (o : Opts) (st : St) (g : Group) : Except Err (St × List Line) :=
   match g.fmt with
   | .moto =>
     let t := motoRecType o.minMoto g.ergStop
+    -- "the count byte also covers address and checksum: no more than 252/251/250 data bytes fit into an S1/S2/S3 record"
+    -- (repair 55ce03a; before it the count byte was printed truncated)
+    let cut := decide (ll + 3 + t > 255)
+    let ll := if cut then (252 - t) - (252 - t) % g.gran else ll
+    let rc := if cut then (g.data.length + ll - 1) / ll else recCnt g.data.length ll
     let hd := (if !st.motoOcc || o.sepMoto then [s0Line] else []) ++
-              (if o.rec5 then [s5Line (recCnt g.data.length ll)] else [])
+              (if o.rec5 then [s5Line rc] else [])
     let body := motoLoop mm g.gran t ll fuel g.ergStart g.data
     let tl := if o.sepMoto then [motoSepTerm t] else []
     -- the Rec5 line leaves Lo(RecCnt)+Hi(RecCnt)+3 in ChkSum, every data line overwrites it
